@@ -50,10 +50,23 @@ def cases(tier, seed):
     dims = [('ninst', [1, 2, 3]), ('nbeads', [1, 0, 2]), ('nsamples', [2, 1, 3, 4]), ('gf', [0.85, 0.3, 1.0]), ('cont', ['int', 'float', 'double']),
             ('neg', [False, True]), ('hist', [True, False]), ('units', ['mixed', 'all-mef', 'none', 'channel']),
             ('res', ['same', 'mixed']), ('cluster', ['all', 'second-only', 'first-only']),
-            ('nevents', ['many', 'smallest-accepted', 'one-more']),
-            ('failed_row', ['none', 'first', 'middle'])]              # a row whose file does not exist, listed above the rows under test       # 400 events is the smallest file the workflow accepts
+            ('nevents', ['many', 'smallest-accepted', 'one-more']),      # 400 events is the smallest file the workflow accepts
+            ('failed_row', ['none', 'first', 'middle']),                  # a row whose file does not exist, listed above the rows under test
+            ('mefnone', [False, True])]                                   # a manufacturer value given as None in the bead rows
+    # (floating-point files always hold a few scatter events beyond the declared range: they are not clipped by the instrument)
+    done = []
     for cfg in explore.deviations(dims, 1 if tier == 'quick' else 2):
+        done.append(cfg)
         yield dict(kind='experiment', cfg=cfg)
+    # pairs of deviations that interact in the workflow (also in the quick tier): floating-point data with a gate fraction of one
+    # (no saturation gate, only the density gate's grid removes out-of-range events), and with the smallest accepted file
+    base = {k_: v[0] for k_, v in dims}
+    for extra in (dict(cont='float', gf=1.0), dict(cont='double', gf=1.0, hist=False), dict(cont='float', gf=1.0, nevents='smallest-accepted'),
+                  dict(cont='float', neg=True, gf=1.0), dict(mefnone=True, units='all-mef'), dict(mefnone=True, nbeads=2, ninst=2)):
+        cfg = dict(base, **extra)
+        cfg['_dev'] = len(extra)
+        if not any(all(d_.get(k_) == v for k_, v in cfg.items() if k_ != '_dev') for d_ in done):
+            yield dict(kind='experiment', cfg=cfg)
 
 
 
@@ -108,13 +121,13 @@ def build_experiment(c, d):
             cchoice = cfg.get('cluster', 'all') if k == 0 else {'all': 'second-only', 'second-only': 'all', 'first-only': 'all'}[cfg.get('cluster', 'all')]
             clus = {'all': ', '.join(inst['fl']), 'second-only': inst['fl'][1], 'first-only': inst['fl'][0]}[cchoice]
             beads.append(dict(id='B%d' % (k + 1), inst=inst['id'], file='beads%d.fcs' % k, gate_fraction=[0.3, 0.5][k % 2], cluster=clus,
-                              mef={ch: wg.mef_string(truth, ci) for ci, ch in enumerate(inst['fl'])}, inst_obj=inst))
+                              mef={ch: wg.mef_string(truth, ci, unknown=((1 + ci,) if cfg.get('mefnone') else ())) for ci, ch in enumerate(inst['fl'])}, inst_obj=inst))
         samples = []
         for k in range(cfg['nsamples']):
             inst = insts[k % len(insts)]
             wg.write_fcs(os.path.join(d, 'sub', 'cells%d.fcs' % k), wg.cell_layout(inst, stream=50 + k, container=cfg['cont'], negatives=cfg['neg'] and cfg['cont'] != 'int',
                                                                                   n={'many': 800 + 150 * k, 'smallest-accepted': 400 + 600 * (k % 2), 'one-more': 401 + k}[cfg.get('nevents', 'many')],
-                                                                                  level=150.0 + 60 * k,
+                                                                                  level=150.0 + 60 * k, overrange=cfg['cont'] != 'int',
                                                                                   res=[1024, 256] if cfg.get('res') == 'mixed' else None))
             mybeads = [b for b in beads if b['inst'] == inst['id']]
             if cfg['units'] == 'mixed':
